@@ -706,8 +706,11 @@ func vfRunCoA(f []string) string {
 			} else if after.drops() != before.drops() {
 				outcome = "drop"
 			}
-			if time.Now().Unix() == now || attempt >= 5 {
-				break // the whole exchange happened within one wall-clock second: "now" is what the code saw
+			// Only a recipe with a clock-relative Event-Timestamp depends on "now"; it is repeated (with a new
+			// timestamp, hence new bytes) when the wall-clock second changed under it.  Any other datagram must NOT be
+			// repeated: a byte-identical copy would be answered from the listener's duplicate cache.
+			if !strings.Contains(kv["attrs"], "TS") || time.Now().Unix() == now || attempt >= 5 {
+				break
 			}
 		}
 		sock.Close()
